@@ -324,3 +324,32 @@ Proof.
   - repeat constructor; cbn; lia.
   - repeat constructor; vm_compute; discriminate.
 Qed.
+
+(* ---------- the column ids of to_ge_polyhedron are pairwise distinct for EVERY model ---------- *)
+(* (the columns come out of a dictionary keyed by id; no validation needed) *)
+Lemma dict_put_ids acc q :
+  map id_of (dict_put acc q) =
+  if existsb (fun r => String.eqb (id_of r) (id_of q)) acc then map id_of acc else (map id_of acc ++ [id_of q])%list.
+Proof.
+  unfold dict_put. destruct (existsb _ acc).
+  - rewrite map_map. apply map_ext. intros r. destruct (String.eqb (id_of r) (id_of q)) eqn:E; [|reflexivity].
+    apply String.eqb_eq in E. congruence.
+  - rewrite map_app. reflexivity.
+Qed.
+Lemma dict_put_nodup acc q : NoDup (map id_of acc) -> NoDup (map id_of (dict_put acc q)).
+Proof.
+  intros H. rewrite dict_put_ids. destruct (existsb _ acc) eqn:E; [exact H|].
+  apply NoDup_app''; [exact H|constructor; [intros []|constructor]|].
+  intros i Hi [<-|[]]. apply in_map_iff in Hi. destruct Hi as (r & Er & Hr).
+  assert (existsb (fun r => String.eqb (id_of r) (id_of q)) acc = true); [|congruence].
+  apply existsb_exists. exists r. split; [exact Hr|]. apply String.eqb_eq. exact Er.
+Qed.
+Theorem dict_by_id_distinct l : NoDup (map id_of (dict_by_id l)).
+Proof.
+  unfold dict_by_id. assert (H : NoDup (map id_of (@nil prop))) by constructor. revert H. generalize (@nil prop).
+  induction l as [|q qs IH]; intros acc H; cbn [fold_left]; [exact H|]. apply IH, dict_put_nodup, H.
+Qed.
+Theorem columns_distinct active p : NoDup (map fst (columns active p)).
+Proof.
+  unfold columns. rewrite map_map. cbn [fst]. apply NoDup_map_filter. apply dict_by_id_distinct.
+Qed.
